@@ -241,7 +241,7 @@ def ray_scale(Ap, basep, lb, ub, b):
     return float(r.x[-1])
 
 
-def rows_sharing_a_solution(B, X, lb, ub, A=None):
+def rows_sharing_a_solution(B, X, lb, ub, A=None, scale=0.0):
     """Index pairs (i, j), i < j, of rows with different targets whose returned intensity vectors are bit-identical although some
     coordinate lies strictly inside its bounds.  Two different problems solved numerically do not end in the same bits (even targets
     1e-12 apart give intensities 1e-13 apart), so such a pair means a result was copied from another row."""
@@ -256,6 +256,7 @@ def rows_sharing_a_solution(B, X, lb, ub, A=None):
             inside = (X[j] > lb + 1e-6 * rng) & (X[j] < ub - 1e-6 * rng)
             if A is not None:
                 inside = inside & (np.abs(np.asarray(A, dtype=float)).sum(axis=0) > 0)     # a source no receptor sees is free
-            if np.array_equal(X[i], X[j]) and not np.array_equal(B[i], B[j]) and np.any(inside):
+            # (targets that differ by less than 1e-9 of the gamut's size - e.g. two denormal numbers - are the same problem numerically)
+            if np.array_equal(X[i], X[j]) and float(np.max(np.abs(B[i] - B[j]))) > 1e-9 * scale and not np.array_equal(B[i], B[j]) and np.any(inside):
                 out.append((i, j))
     return out
